@@ -138,9 +138,32 @@ func ruleCopyLimit(c *Ctx) {
 			continue
 		}
 		accArg = call.Call.Args[accIdx]
-		al, isAlloc := accArg.(*ssa.Alloc)
+		accUser := call
 		key := "(i) accumulator: one local of the apply function, outside the loop, handed only to the copy handler"
-		if !isAlloc {
+		passBad := ""
+		if p, isP := accArg.(*ssa.Parameter); isP && ai.viaCall != nil && p.Parent() == ai.fn {
+			// the dispatch is a helper: its parameter is handed to the copy handler only, and the
+			// loop function passes the address of its local
+			for _, r := range *p.Referrers() {
+				switch x := r.(type) {
+				case *ssa.Call:
+					if x != call {
+						passBad = "the dispatch helper also passes the accumulator to " + calleeLabel(&x.Call) + " at " + b.posOf(x)
+					}
+				case *ssa.DebugRef:
+				default:
+					passBad = fmt.Sprintf("the dispatch helper uses the accumulator itself (%T) at %s", r, b.posOf(r))
+				}
+			}
+			if pi := paramIdx(p); pi < len(ai.viaCall.Call.Args) {
+				accArg = ai.viaCall.Call.Args[pi]
+				accUser = ai.viaCall
+			}
+		}
+		al, isAlloc := accArg.(*ssa.Alloc)
+		if passBad != "" {
+			add(key, b.posOf(call), false, "", passBad)
+		} else if !isAlloc {
 			add(key, b.posOf(call), false, "", "the running total handed to the copy handler is "+describeValue(accArg)+", not a local variable of the apply function")
 		} else {
 			bad := ""
@@ -150,7 +173,7 @@ func ruleCopyLimit(c *Ctx) {
 			for _, r := range *al.Referrers() {
 				switch x := r.(type) {
 				case *ssa.Call:
-					if x != call {
+					if x != accUser {
 						bad = "the accumulator is also passed to " + calleeLabel(&x.Call) + " at " + b.posOf(x)
 					}
 				case *ssa.Store:
@@ -271,7 +294,7 @@ func ruleCopyLimit(c *Ctx) {
 					key = "(ii) size: measured as spelled in the output (same encoder call, same EscapeHTML option)"
 					mf := marsh.Call.StaticCallee()
 					var finals []*ssa.Call
-					allInstrs(ai.fn, func(i ssa.Instruction) {
+					allInstrs(b.encodeFnOf(ai), func(i ssa.Instruction) {
 						if cc, ok := i.(*ssa.Call); ok && cc.Call.StaticCallee() != nil && cc.Call.StaticCallee().Pkg == b.Codec && strings.HasPrefix(cc.Call.StaticCallee().Name(), "Marshal") {
 							finals = append(finals, cc)
 						}
@@ -996,4 +1019,51 @@ func (b *Body) optionsFieldConstFalseRec(opt ssa.Value, field string, fn *ssa.Fu
 		}
 	}
 	return false, "options value " + describeValue(opt) + " cannot be traced to a literal"
+}
+
+
+// encodeFnOf: the function that encodes the patched document: the loop function, or the
+// library helper it calls (outside the loop) that contains the codec's Marshal call.
+func (b *Body) encodeFnOf(ai *applyInfo) *ssa.Function {
+	hasMarshal := func(fn *ssa.Function) bool {
+		found := false
+		allInstrs(fn, func(i ssa.Instruction) {
+			if cc, ok := i.(*ssa.Call); ok {
+				if f := cc.Call.StaticCallee(); f != nil && b.Codec != nil && f.Pkg == b.Codec && strings.HasPrefix(f.Name(), "Marshal") {
+					found = true
+				}
+				if f := cc.Call.StaticCallee(); f != nil && b.Codec == nil && f.Pkg != nil && f.Pkg.Pkg.Path() == "encoding/json" && strings.HasPrefix(f.Name(), "Marshal") {
+					found = true
+				}
+			}
+		})
+		return found
+	}
+	if hasMarshal(ai.loopFn) {
+		return ai.loopFn
+	}
+	var cands []*ssa.Function
+	allInstrs(ai.loopFn, func(i ssa.Instruction) {
+		cc, ok := i.(*ssa.Call)
+		if !ok || innermostLoopHeader(cc.Block()) != nil {
+			return
+		}
+		f := cc.Call.StaticCallee()
+		if f == nil || f.Pkg != b.Lib || len(f.Blocks) == 0 {
+			return
+		}
+		isHandler := false
+		for _, h := range ai.handlers {
+			if h == f {
+				isHandler = true
+			}
+		}
+		if !isHandler && hasMarshal(f) {
+			cands = append(cands, f)
+		}
+	})
+	if len(cands) == 1 {
+		return cands[0]
+	}
+	return ai.loopFn
 }
